@@ -62,6 +62,13 @@ func (e *CapturingEngine) Start(name string, o ...engine.ControllerOption) error
 	return nil
 }
 
+// Reconciler returns the reconciler captured for the named controller (nil if none).
+func (e *CapturingEngine) Reconciler(name string) reconcile.Reconciler {
+	e.mu.Lock()
+	defer e.mu.Unlock()
+	return e.Reconcilers[name]
+}
+
 // Options returns apiextensions controller options with a permissive global rate limiter.
 func Options(ssaClaims bool) apiextensionscontroller.Options {
 	o := apiextensionscontroller.Options{Options: controller.DefaultOptions()}
